@@ -77,6 +77,12 @@ def alter_tx_byte(raw, rng):
     return bytes(b)
 
 
+def to_segwit(raw, rng):
+    """the same transaction in the BIP144 serialisation (marker, flag, one witness stack for its one input): same id, other bytes"""
+    item = bytes(rng.getrandbits(8) for _ in range(rng.choice([1, 33, 72])))
+    return raw[:4] + b'\x00\x01' + raw[4:-4] + b'\x01' + bytes([len(item)]) + item + raw[-4:]
+
+
 def flip_bit(b32, byte, rng):
     b = bytearray(b32)
     b[byte] ^= 1 << rng.randrange(8)
@@ -130,6 +136,7 @@ class Block:
         self.root = self.levels[-1][0]
         self.foreign_nodes = {}
         self.altered = {}
+        self.wire = {}            # legacy bytes -> the bytes handed to the wallet (half of the transactions travel in segwit form)
         chain, prev = [], b'\0' * 32
         for h in range(HLEN):
             # the other blocks' roots are NEAR MISSES of this block's root (one bit differs: first, last or a random byte),
@@ -169,6 +176,11 @@ class Block:
             self.altered[i] = alter_tx_byte(self.raws[i], self.rng)
         return self.altered[i]
 
+    def wire_for(self, raw):
+        if raw not in self.wire:
+            self.wire[raw] = to_segwit(raw, self.rng) if self.rng.random() < 0.5 else raw
+        return self.wire[raw]
+
     def response(self, case):
         if not case['hasm']:
             return {'block_height': self.blk}
@@ -186,14 +198,19 @@ class Block:
         return out
 
 
-def call_real(ledger, net, loop, Transaction, raw, hc, resp, path):
-    """one real evaluation; returns (is_verified, position, height, exception-name)"""
+def call_real(ledger, net, loop, Transaction, raw, hc, resp, path, wire=None, reuse=None):
+    """one real evaluation; returns (is_verified, position, height, exception-name).  raw = legacy bytes (they define the id),
+    wire = the serialisation handed to the wallet; reuse = a Transaction object that has been through a verification already"""
     net.merkle, net.calls = resp, []
+    wire = wire or raw
     try:
         with watchdog(20):
-            if path == 'batch':
+            if reuse is not None:
+                tx = reuse
+                loop.run(ledger.maybe_verify_transaction(tx, hc, dict(resp)), limit=100_000)
+            elif path == 'batch':
                 txid = dsha(raw)[::-1].hex()
-                net.batch = {txid: (raw.hex(), dict(resp))}
+                net.batch = {txid: (wire.hex(), dict(resp))}
 
                 async def fetch():
                     got = {}
@@ -205,7 +222,7 @@ def call_real(ledger, net, loop, Transaction, raw, hc, resp, path):
                     return None, None, None, f'request_transactions returned {sorted(got)} for {txid}'
                 tx = got[txid]
             else:
-                tx = Transaction(raw)
+                tx = Transaction(wire)
                 loop.run(ledger.maybe_verify_transaction(tx, hc, dict(resp) if path == 'arg' else None), limit=100_000)
     except Hang:
         return None, None, None, 'Hang'
@@ -307,12 +324,23 @@ def run_shard(ctx, nmin, nmax, leafall, stats):
                 if c['kind'] == 'flip' and c['k'] < len(genuine) and n <= 16:
                     stats['flips_in_branch_n<=16'] = stats.get('flips_in_branch_n<=16', 0) + 1
                     stats['flips_in_branch_n<=16_verified'] = stats.get('flips_in_branch_n<=16_verified', 0) + int(c['verified'])
-            for path in PATHS:
-                got = call_real(b.ledger, b.net, loop, b.Transaction, raw, c['hc'], resp, path)
+            wire = b.wire_for(raw)
+            for path in PATHS + (('reuse',) if c['leaf'] == i and c['hasm'] and 0 < c['hc'] < HLEN and 0 < blk < HLEN else ()):
+                reuse = None
+                if path == 'reuse':
+                    # the SAME Transaction object, verified genuinely a moment ago, is checked again with this case's height and
+                    # proof: a verdict must never survive from the earlier call
+                    reuse = b.Transaction(wire)
+                    first = call_real(b.ledger, b.net, loop, b.Transaction, raw, blk, {'merkle': [x[::-1].hex() for x in genuine], 'pos': i, 'block_height': blk},
+                                      'arg', wire, reuse)
+                    if first[0] is not True:
+                        continue          # the genuine proof itself is refused: reported by the case of kind "none"
+                got = call_real(b.ledger, b.net, loop, b.Transaction, raw, c['hc'], resp, path, wire, reuse)
                 stats['evaluations'] = stats.get('evaluations', 0) + 1
                 ctx.count(stats['evaluations'], nontrivial=n >= 2)      # TLC states are distinct, so every (case, path) is
                 judge(ctx, c, path, got, lambda c=c, path=path, got=got, raw=raw, resp=resp: {
-                    'case': c, 'path': path, 'raw_tx': raw.hex(), 'response': resp, 'claimed_height': c['hc'],
+                    'case': c, 'path': path, 'raw_tx': raw.hex(), 'wire_tx': wire.hex(), 'response': resp, 'claimed_height': c['hc'],
+                    'genuine_first': {'merkle': [x[::-1].hex() for x in genuine], 'pos': i, 'block_height': blk} if path == 'reuse' else None,
                     'header_chain': b.chain.hex(), 'expected': {'verified': c['verified'], 'position': c['position']},
                     'observed': {'is_verified': got[0], 'position': got[1], 'height': got[2], 'raised': got[3]}})
             if n in (5, 7) and i == n - 1 and blk == 1 + ((n + i) % (HLEN - 1)) and c['kind'] in ('none', 'flip'):
@@ -344,7 +372,12 @@ def replay_one(ctx):
     headers.checkpoints = {}
     loop.run(headers.open())
     loop.run(headers.connect(0, bytes.fromhex(r['header_chain'])))
-    got = call_real(ledger, net, loop, Transaction, bytes.fromhex(r['raw_tx']), r['claimed_height'], r['response'], r['path'])
+    wire = bytes.fromhex(r.get('wire_tx') or r['raw_tx'])
+    reuse = None
+    if r['path'] == 'reuse':
+        reuse = Transaction(wire)
+        call_real(ledger, net, loop, Transaction, bytes.fromhex(r['raw_tx']), r['genuine_first']['block_height'], r['genuine_first'], 'arg', wire, reuse)
+    got = call_real(ledger, net, loop, Transaction, bytes.fromhex(r['raw_tx']), r['claimed_height'], r['response'], r['path'], wire, reuse)
     ctx.count(('replay', r['path']))
     print(f'replay: observed is_verified={got[0]} position={got[1]} height={got[2]} raised={got[3]}; expected {r["expected"]}', flush=True)
     judge(ctx, r['case'], r['path'], got, lambda: r)
@@ -372,7 +405,9 @@ def run(ctx):
                        'other branch element, for n<=LEAFALL every node of that level), each position bit flipped (incl. two bits above the '
                        'branch), each element dropped (with and without shifting the position), a foreign hash or the node itself inserted '
                        'at every level / appended, another transaction of the block or the transaction with one bit altered, and the '
-                       "answer without a 'merkle' key. Each case is evaluated on the real code three ways (arg / net / batch). "
+                       "answer without a 'merkle' key. Each case is evaluated on the real code three ways (arg / net / batch), and, where the "
+                       'claimed height has a header, a fourth time on a Transaction object that was verified genuinely just before (reuse); '
+                       'half of the transactions are handed over in the segwit serialisation (same id, other bytes). '
                        'Distinct = (case, path); non-trivial = n >= 2.')
     ctx.leg('A', laws=INVS, shards=[dict(NMIN=a, NMAX=b, LEAFALL=c, HLEN=HLEN) for a, b, c in shards])
     ctx.leg('B', **stats)
@@ -383,6 +418,7 @@ def run(ctx):
         'right-edge nodes paired with their own duplicate fold to the same root and are accepted',
         'the local header chain is built through Headers.connect with proof-of-work validation off (regtest style); '
         'header validation itself is C07',
-        'maybe_verify_transaction always receives a fresh Transaction (its only caller constructs one)',
+        'a re-used Transaction object is only judged at claimed heights the wallet has a header for (both callers in the product '
+        'construct a fresh object; at other heights the unchanged code leaves the object as it was)',
         'claim_proofs.verify_proof (legacy claim-trie checker, no caller in the wallet) is not modelled here',
     ]
